@@ -3,6 +3,8 @@ import IrVerif.Drive.Serde
 import IrVerif.Drive.Scope
 import IrVerif.Model.ScopeSerdeBridge
 import IrVerif.Model.ScopeSerdeBridgeSub
+import IrVerif.Model.ScopeSerdeBridgeModel
+import IrVerif.Model.ScopeSerdeBridgeModel9
 /-! Protocol handler for the C02 bridge (`IrVerif.Bridge`, property C03).
 
 `{"m":"bridge.graph","x":<GraphProto in the JSON of serde.*>}` answers
@@ -31,6 +33,10 @@ def cellJ (c : Cell) : Json :=
     | some t => Scope.tensorSJ t]
 
 def coreJ (c : Core) : Json := obj [("cells", Json.arr (c.cells.map cellJ).toArray), ("root", Scope.graphTJ c.root)]
+
+def coreMJ (c : CoreM) : Json :=
+  obj [("cells", Json.arr (c.cells.map cellJ).toArray), ("root", Scope.graphTJ c.root),
+    ("funcs", Json.arr (c.funcs.map fun f => Json.arr #[Scope.fidJ f.1, Scope.graphTJ f.2]).toArray)]
 
 def boolOptJ : Option Bool → Json
   | none => Json.null
@@ -74,6 +80,45 @@ def handle : Handler := fun m j =>
       ("gok", boolOptJ gok), ("des_agree", boolOptJ desAgree), ("ser_agree", boolOptJ serAgree),
       ("norm_agree", boolOptJ normAgree),
       ("c02_ser", match c02ser with | some q => q | none => Json.null)]
+  | "bridge.model" => some do
+    -- the same for a ModelProto with functions: IR version >= 10 `deserializeM` / `serializeM` (`C03_bridge_*_model`,
+    -- fragment `sharedM`), below it `deserializeM9` / `serializeM9 true` (`C03_bridge_*_model9`, fragment `sharedM9`)
+    let p ← Serde.dModel (← j.getObjVal? "x")
+    let M := absM p
+    let lt10 : Bool := decide (p.irVersion < 10)
+    let c02 := IrVerif.Serde.desModel p
+    let sc := if lt10 then IrVerif.Scope.deserializeM9 M else IrVerif.Scope.deserializeM M
+    let c02ser : Option IrVerif.Proto.ModelP := match c02 with
+      | .ok x => match IrVerif.Serde.serModel x with
+        | .ok q => some q
+        | .error _ => none
+      | .error _ => none
+    let gok : Option Bool := match c02 with
+      | .ok x => some (if lt10 then GOKM9 x else GOKM x)
+      | .error _ => none
+    let desAgree : Option Bool := match c02, sc with
+      | .ok x, .ok w => some ((coreMJ (coreOfM w)).compress == (coreMJ (absIRM x)).compress)
+      | _, _ => none
+    let serQ : Option IrVerif.Scope.ModelP := match sc with
+      | .ok w => match (if lt10 then IrVerif.Scope.serializeM9 true w else IrVerif.Scope.serializeM w) with
+        | .ok (_, Q) => some Q
+        | .error _ => none
+      | .error _ => none
+    let serAgree : Option Bool := match serQ, c02ser with
+      | some Q, some q => some ((Scope.modelPJ Q).compress == (Scope.modelPJ (absM q)).compress)
+      | _, _ => none
+    let normAgree : Option Bool := match serQ, c02 with
+      | some Q, .ok _ => some ((Scope.modelPJ Q).compress == (Scope.modelPJ (absM (IrVerif.Serde.normModel p))).compress)
+      | _, _ => none
+    return obj [
+      ("shared", Json.bool (if lt10 then sharedM9 p else sharedM p)),
+      ("sharedS", Json.bool (if lt10 then sharedSM9 p else sharedSM p)),
+      ("abs", Scope.modelPJ M),
+      ("c02", Json.str (match c02 with | .ok _ => "ok" | .error _ => "raised")),
+      ("scope", Json.str (match sc with | .ok _ => "ok" | .error _ => "raised")),
+      ("gok", boolOptJ gok), ("des_agree", boolOptJ desAgree), ("ser_agree", boolOptJ serAgree),
+      ("norm_agree", boolOptJ normAgree),
+      ("c02_ser", match c02ser with | some q => Serde.eModel q | none => Json.null)]
   | _ => none
 
 end IrVerif.Drive.ScopeSerdeBridge
